@@ -182,6 +182,14 @@ func checkParse(c parseCase) (h.Info, error) {
 	if err != nil || re != ref.AsciiLower(s) {
 		return info, fmt.Errorf("ParseBech32(%q) accepted but re-encodes to %q, %v", s, re, err)
 	}
+	// no state between calls: parse the same string again after overwriting what the first call returned
+	b0 := a.Bytes()
+	for i := range b0 {
+		b0[i] ^= 0xff
+	}
+	if p2, a2, err := address.ParseBech32(s); err != nil || p2 != p || !bytes.Equal(a2.Bytes(), r.Data) {
+		return info, fmt.Errorf("second ParseBech32(%q) differs from the first", s)
+	}
 	return info, nil
 }
 
